@@ -210,6 +210,12 @@ var c19Faults = []struct {
 	{"quoted-expr-css", "{css $x +, c}", 0},
 	{"unterminated-comment", "/* never closed", 0},
 	{"unterminated-tag", "{if $x", 0},
+	// a double-brace tag closed by a single brace at the very end of its line: the scanner has looked at the
+	// line break when it finds out; the construct is on THIS line
+	{"double-brace-closed-once", "{{$x}", 0},
+	{"double-brace-closed-once-selfclosing", "{{call .zz /}", 0},
+	{"double-brace-closed-once-css", "{{css c}", 0},
+	{"double-brace-closed-once-multiline", "{{call .zz}}\n{{param k: 1 /}\n{{/call}}", 1},
 }
 
 func genC19parse(g *G) {
